@@ -550,6 +550,18 @@ def install(w):
         I.ctx.effect("timer", "provide_check_timer", getattr(node, "lineno", None))
         return SObj(Countdown, {"expired": False}, "check_timer.new")
 
+    # sequence number provider (ASSUMED contract: returns the current count, then increments; values >= 0 and
+    # within the provider's width, which is one of 8/16/32 bits)
+    from spacepackets.seqcount import ProvidesSeqCount
+
+    @w.stub_method(ProvidesSeqCount, "get_and_increment")
+    def _seq_next(I, self, args, kwargs, node):
+        I.ctx.effect("seqnum", "get_and_increment", getattr(node, "lineno", None))
+        v = I.ctx.fresh("seq.next")
+        I.ctx.assume(v >= 0)
+        I.ctx.event("seqnum", value=v)
+        return v
+
     # RemoteEntityCfgTable.get_cfg: functional lookup by id value
     @w.stub_method(RemoteEntityCfgTable, "get_cfg")
     def _get_cfg(I, self, args, kwargs, node):
